@@ -231,11 +231,11 @@ def plan_C04(ctx):
                        "for the JSON analyses success means parseResult and valueClass != invalid; positions of CheckConstituenta are relative to '<alias>:==<definition>' (prefixLen)"]
     cfgs = ["Gen_C04_q.cfg", "Gen_C04_q2.cfg"] if ctx.quick else ["Gen_C04_t.cfg"]
     ctx.constants = {c: open(os.path.join(vcore.TLA, c)).read().split("SPECIFICATION")[0].split() for c in cfgs}
-    ctx.constants["asan"] = "every 6th case (by hash) in quick, every 3rd in thorough"
+    ctx.constants["asan"] = "every 6th case (by hash) in quick, every 4th in thorough"
     for c in cfgs:
-        # all cases in the optimised build (faults, Post), and the sanitizer build on a hash-sample (1/6 quick, 1/3 thorough)
-        ctx.replay("Gen_C04.tla", c, h, tag=c[:-4], timeout=3400, xss="64m")
-        ctx.replay("Gen_C04.tla", c, hs, ["--sample", "6"] if ctx.quick else ["--sample", "3"], tag="asan-" + c[:-4], timeout=3400, xss="64m")
+        # all cases in the optimised build (faults, Post), and the sanitizer build on a hash-sample (1/6 quick, 1/4 thorough)
+        ctx.replay("Gen_C04.tla", c, h, tag=c[:-4], timeout=3400 if ctx.quick else 9000, xss="64m")
+        ctx.replay("Gen_C04.tla", c, hs, ["--sample", "6"] if ctx.quick else ["--sample", "4"], tag="asan-" + c[:-4], timeout=3400 if ctx.quick else 9000, xss="64m")
     ctx.exhaustive = True
     src = ctx.path("c04-cases.txt")
     ctx.generate("Gen_C04.tla", "Gen_C04_q2.cfg", src, every=(40 if ctx.quick else 8))
